@@ -104,6 +104,9 @@ def mon_items(tier):
                         out.append((sp, {"rule": rule, "auto_abs": aa, "max_time": F.seq_bound(sp) + 10}))
     for sp in F.fac_specs(tier):
         out.append((sp, {"rule": "TSLACK", "max_time": F.seq_bound(sp) + 10}))
+    for sp in F.auto_component_specs():
+        for aa in (False, True):
+            out.append((sp, {"rule": "TSLACK", "auto_abs": aa, "max_time": F.seq_bound(sp) + 12}))
     return out
 
 
@@ -135,6 +138,12 @@ def run(tier, seed):
     H, D = (5, 2) if tier == "quick" else (6, 3)
     col = stepcheck.explore(mi, MONS, H, D, who_fn=lambda sp: ["P"], seed=seed)
     col.merge(stepcheck.explore(mi, MONS, 4, 1 if tier == "quick" else 2, seed=seed))
+    # absence lists as a caller may write them: unsorted, with repeated steps, with steps beyond the end
+    li = []
+    for sp, o in mi[:: (6 if tier == "quick" else 2)]:
+        for lst in ([2, 2, 4], [3, 1, 3, 5], [0, 0], [1, 1, 2, 40], [4, 2, 0]):
+            li.append((sp, dict(o, absence=lst)))
+    col.merge(stepcheck.explore(li, MONS, 0, 0, seed=seed))
     di = diff_items(tier)
     col.merge(engines.fanout(di, work_diff, seed=seed))
     meta = {
@@ -144,7 +153,7 @@ def run(tier, seed):
         "progress iff flag, absent resource contributes nothing; (differential) every absence list that is a subset (size <= bound) of steps 0..makespan+1 plus indices far beyond the end, "
         "on all 2-task workflows (4 kinds) and FS/SS/FF 3-task workflows without component-bound automatic tasks, flag off: logs after simulate(absence=L); remove_absence_time_list() must equal "
         "the logs of simulate(absence=[]); non-trivial = distinct project-absence states / distinct in-range absence lists",
-        "bounds": {"H": H, "D": D, "monitor_models": len(mi), "differential_models": len(di)},
+        "bounds": {"H": H, "D": D, "monitor_models": len(mi), "literal_list_runs(unsorted/repeated/beyond-end)": len(li), "differential_models": len(di)},
         "assumptions": ["differential compares every log, time, costs and status (not live scratch state) and is claimed with the auto flag off"],
     }
     if col.checks["c10.absence-step"] == 0 or col.checks["c10.differential"] == 0:
